@@ -254,9 +254,13 @@ class IREncoder(encode.Encoder):
         for conditions, body in m['branches']:
             alts = []
             for (vn, op, en) in conditions:
-                ev = z3.BitVecVal(vals[en], v.width)
+                ev = z3.BitVecVal(vals.get(en, 0), v.width)
+                if en not in vals:
+                    raise Mismatch('enumerator %s is not declared in %s' % (en, d['name']))
                 if op == '==':
                     alts.append(x == ev)
+                elif op == '!=':
+                    alts.append(x != ev)
                 else:
                     alts.append((x == 0) if vals[en] == 0 else ((x & ev) != 0))
             conds.append(z3.Or(*alts) if len(alts) > 1 else alts[0])
@@ -280,6 +284,8 @@ class IREncoder(encode.Encoder):
                 raise Mismatch('conditional on %s at %s is not decided by the wowm shape (IR branch %d may or may not be taken)' % (var, path, k))
         if taken is not None:
             self.members(m['branches'][taken][1], path, scope, c, top)
+        elif m.get('els') is not None:
+            self.members(m['els'], path, scope, c, top)      # every condition is implied false
 
 
 class Mismatch(Exception):
